@@ -349,3 +349,59 @@ func SelfTest() error {
 	}
 	return nil
 }
+
+// Resume continues RFC 7693 hashing from an intermediate state and returns the
+// nn-byte digest: h is the chaining value after the blocks compressed so far,
+// (tlo, thi) the 2w-bit offset counter t = number of bytes compressed so far,
+// buf the bytes received but not yet compressed (0..bb bytes; a full block may
+// be pending because the last block is only compressed with the final flag),
+// more the bytes still to be absorbed. Exactly the loop of section 3.3:
+// every block except the last advances t by bb and is compressed without the
+// final flag; the last (zero padded, possibly empty) block advances t by its
+// byte count and is compressed with it. The counter arithmetic is done mod
+// 2^(2w) with an explicit carry from the low into the high word.
+func (a *Alg) Resume(h [8]uint64, tlo, thi uint64, buf, more []byte, nn int) []byte {
+	if len(buf) > a.BB || nn < 1 || nn > a.Out {
+		panic("ref/blake2: bad resume state")
+	}
+	add := func(n uint64) {
+		lo := (tlo + n) & a.mask
+		if lo < tlo&a.mask { // wrapped
+			thi = (thi + 1) & a.mask
+		}
+		tlo = lo
+	}
+	tlo &= a.mask
+	thi &= a.mask
+	data := append(append([]byte{}, buf...), more...)
+	for len(data) > a.BB {
+		add(uint64(a.BB))
+		a.f(&h, data[:a.BB], tlo, thi, false)
+		data = data[a.BB:]
+	}
+	last := make([]byte, a.BB)
+	copy(last, data)
+	add(uint64(len(data)))
+	a.f(&h, last, tlo, thi, true)
+	wb := int(a.W / 8)
+	out := make([]byte, 0, a.Out)
+	for i := 0; i < 8; i++ {
+		for j := 0; j < wb; j++ {
+			out = append(out, byte(h[i]>>(8*uint(j))))
+		}
+	}
+	return out[:nn]
+}
+
+// InitialH is the chaining value before any block: IV xor parameter block.
+func (a *Alg) InitialH(param []byte) (h [8]uint64) {
+	wb := int(a.W / 8)
+	for i := 0; i < 8; i++ {
+		var x uint64
+		for j := wb - 1; j >= 0; j-- {
+			x = x<<8 | uint64(param[i*wb+j])
+		}
+		h[i] = a.IV[i] ^ x
+	}
+	return h
+}
